@@ -144,7 +144,36 @@ impl Name {
     pub fn to_owned(&self) -> (r: Name) ensures r == *self, { unimplemented!() }
     #[verifier::external_body]
     pub fn to_string(&self) -> (r: Name) ensures r == *self, { unimplemented!() }
+    /// `String::as_str` (0 hits on /repo): the same name, borrowed
+    #[verifier::external_body]
+    pub fn as_str(&self) -> (r: &Name) ensures *r == *self, { unimplemented!() }
 }
+/// `str::cmp` (byte-wise lexicographic order of two names) as a sign: < 0, 0, > 0.  Uninterpreted: nothing the
+/// glue states depends on the order itself, only on whether a table is KNOWN to be sorted by it.
+pub uninterp spec fn name_cmp(a: Name, b: Name) -> int;
+/// "the chromosome table is sorted by name" — the precondition under which `slice::binary_search_by` with the
+/// comparator `|x| x.name.as_str().cmp(target)` means anything
+pub open spec fn sorted_by_name(v: Seq<ChromInfo>) -> bool {
+    forall|i: int, j: int| 0 <= i < j < v.len() ==> name_cmp(#[trigger] v[i].name, #[trigger] v[j].name) <= 0
+}
+/// shim for `V.binary_search_by(|x| x.name.as_str().cmp(chrom_name))` (0 hits on /repo; lets an edit that
+/// bisects the chromosome table reach the verifier) with `slice::binary_search_by`'s REAL contract: it never
+/// panics and the index it returns is in range (Ok: < len, Err: <= len); IF the slice is sorted consistently with
+/// the comparator, Ok(i) is AN element that compares Equal (not necessarily the first) and Err(j) means no
+/// element compares Equal (j = the insertion point); if the slice is NOT sorted that way "the returned result is
+/// unspecified and meaningless" (std docs) — any in-range Ok / Err.
+#[verifier::external_body]
+pub fn bsearch_chrom_by_name(v: &Vec<ChromInfo>, chrom_name: &Name) -> (r: Result<usize, usize>)
+    ensures
+        r matches Ok(i) ==> i < v@.len(),
+        r matches Err(j) ==> j <= v@.len(),
+        sorted_by_name(v@) ==> (r matches Ok(i) ==> v@[i as int].name == *chrom_name),
+        sorted_by_name(v@) ==> (r matches Err(j) ==> {
+            &&& forall|k: int| 0 <= k < v@.len() ==> (#[trigger] v@[k]).name != *chrom_name
+            &&& forall|k: int| 0 <= k < j ==> name_cmp((#[trigger] v@[k]).name, *chrom_name) < 0
+            &&& forall|k: int| j <= k < v@.len() ==> name_cmp((#[trigger] v@[k]).name, *chrom_name) > 0
+        }),
+{ unimplemented!() }
 
 // stand-in that only matters for CHANGED code (0 hits on /repo): lets an edit that swallows an error reach the
 // verifier.  Weakest contract: on Ok the value is the payload; on Err nothing is known.
